@@ -76,7 +76,30 @@ func runC19(ctx *Ctx, idx int) Result {
 	e.ResumeAll()
 	// sweep: every key-only operation over every present key and absent targets, on a cold tree
 	if !e.Failed() && e.S != nil {
+		// two values far larger than any buffer, to be overwritten by values of the same length later
+		bigKeys := map[string][]byte{}
+		if idx%2 == 0 {
+			for _, n := range e.M.Live.Names() {
+				if s := e.M.Live.Colls[n].Sorted(); len(s) > 0 {
+					k := s[r.Intn(len(s))].Key
+					e.SetItem(n, k, r.Bytes([]int{20000, 65536, 70000}[r.Intn(3)]), h.Prios.Next(r), false)
+					bigKeys[n] = k
+					ctx.Stats["c19.big-values"]++
+				}
+			}
+		}
 		e.Flush()
+		// a snapshot that has served as the source of a copy, used for key-only reads afterwards
+		snapIdx := -1
+		if idx%4 == 1 && !e.Failed() {
+			for i := range e.Snaps {
+				e.SnapClose(i)
+			}
+			e.Snapshot(-1)
+			snapIdx = len(e.Snaps) - 1
+			e.CopyTo(snapIdx, r.Range(-1, 3))
+			ctx.Stats["c19.snapshot-copied-before-sweep"]++
+		}
 		if r.P(35) {
 			// a CopyTo that fails part way (destination write fault) must not leave the source in a
 			// state in which key-only operations read values
@@ -104,11 +127,30 @@ func runC19(ctx *Ctx, idx int) Result {
 				e.Exist(-1, n, t)
 				e.Visit(-1, n, driver.VisitKind(r.Intn(6)), t, false, -1)
 				ctx.Stats["c19.sweep-ops"] += 3
+				if snapIdx >= 0 && snapIdx < len(e.Snaps) && !e.Snaps[snapIdx].Closed {
+					e.GetItem(snapIdx, n, t, false)
+					e.Exist(snapIdx, n, t)
+					e.Visit(snapIdx, n, driver.VisitKind(r.Intn(4)), t, false, -1)
+					ctx.Stats["c19.sweep-ops"] += 3
+				}
+			}
+			if snapIdx >= 0 && snapIdx < len(e.Snaps) && !e.Snaps[snapIdx].Closed {
+				e.MinMax(snapIdx, n, false, false)
+				e.MinMax(snapIdx, n, true, false)
+				e.Len(snapIdx, n)
 			}
 			e.MinMax(-1, n, false, false)
 			e.MinMax(-1, n, true, false)
 			e.Len(-1, n)
 			// key-only mutations on a cold tree
+			if k, ok := bigKeys[n]; ok {
+				if old, ok := m.Get(k); ok {
+					// a new value of exactly the old length, through Set() and through SetItem()
+					e.SetItem(n, k, r.Bytes(len(old.Val)), old.Prio, true)
+					e.SetItem(n, k, r.Bytes(len(old.Val)), old.Prio, false)
+					ctx.Stats["c19.sweep-ops"] += 2
+				}
+			}
 			if s := m.Sorted(); len(s) > 0 {
 				e.Delete(n, s[r.Intn(len(s))].Key)
 				e.SetItem(n, s[r.Intn(len(s))].Key, []byte("overwrite"), h.Prios.Next(r), false)
